@@ -1,6 +1,7 @@
 package dns
 
 import (
+	"bytes"
 	"encoding/base64"
 	"errors"
 	"fmt"
@@ -523,6 +524,11 @@ func (d decoder) nameLabels(s *cryptobyte.String) ([]string, error) {
 		// at most 255 octets long. This also bounds the work done for a
 		// compression pointer that leads back into the name it ends.
 		if size += len(name) + 1; len(name) > 63 || size > 254 {
+			return nil, ErrDecodeError
+		}
+		// Names are handed out as dot-separated strings: a label that
+		// contains a dot would become two labels, i.e. another name.
+		if bytes.IndexByte(name, '.') >= 0 {
 			return nil, ErrDecodeError
 		}
 		labels = append(labels, string(name))
